@@ -36,6 +36,12 @@
 //!   `Matter` from a KV image and returns the same fabric map, so "memory == what a reboot
 //!   would see" is one comparison.
 //!
+//! * **For C07** (added later, [`boot`] unchanged): [`boot_with`] + [`BootOpts`] (run the debounced
+//!   resumption-cache writer), [`Boot::read`] / [`Boot::subscribe`] (hand-rolled IM client of
+//!   `sim::imdev`), [`Boot::device_sessions`], [`Boot::resumption_records`], [`Boot::subscriptions`],
+//!   [`Boot::fabric_identities`], [`Boot::device_sc_opcodes_since`] (wire tap: e.g. did the device
+//!   answer Sigma2_Resume?). Controllers may outlive a device incarnation.
+//!
 //! # Typical use
 //!
 //! ```ignore
@@ -99,6 +105,7 @@ use super::{clock, Exec, Sched, Stop, SEC};
 // ------------------------------------------------------------------------------------------
 
 pub const CL_ACL: u32 = 0x001F;
+pub const CL_BASIC_INFO: u32 = 0x0028;
 pub const CL_GEN_COMM: u32 = 0x0030;
 pub const CL_NET_COMM: u32 = 0x0031;
 pub const CL_ADM_COMM: u32 = 0x003C;
@@ -182,6 +189,23 @@ pub struct AclSpec {
     pub subjects: Vec<u64>,
 }
 
+/// One target of an access-control entry (`None` = null).
+#[derive(Debug, Clone, PartialEq, Eq, Serialize, Deserialize)]
+pub struct AclTargetSpec {
+    pub cluster: Option<u32>,
+    pub endpoint: Option<u16>,
+    pub device_type: Option<u32>,
+}
+
+/// One access-control entry with targets for [`Cmd::WriteAclFull`] (empty lists are sent as null).
+#[derive(Debug, Clone, PartialEq, Eq, Serialize, Deserialize)]
+pub struct AclSpecFull {
+    pub privilege: u8,
+    pub auth_mode: u8,
+    pub subjects: Vec<u64>,
+    pub targets: Vec<AclTargetSpec>,
+}
+
 /// One administrative operation sent by a controller.
 #[derive(Debug, Clone, PartialEq, Eq, Serialize, Deserialize)]
 pub enum Cmd {
@@ -208,6 +232,16 @@ pub enum Cmd {
     WriteAcl { entries: Vec<AclSpec> },
     /// attribute write: GeneralCommissioning::Breadcrumb
     WriteBreadcrumb { value: u64 },
+    /// attribute write: BasicInformation::NodeLabel
+    WriteNodeLabel { label: String },
+    /// attribute write: BasicInformation::Location
+    WriteLocation { country: String },
+    /// attribute write: BasicInformation::LocalConfigDisabled
+    WriteLocalConfigDisabled { value: bool },
+    /// attribute write: replace the whole ACL list of the accessing fabric, entries with targets
+    WriteAclFull { entries: Vec<AclSpecFull> },
+    /// attribute write: replace the GroupKeyMap list of the accessing fabric: (group id, key set id)
+    WriteGroupKeyMap { entries: Vec<(u16, u16)> },
 }
 
 /// How a [`Cmd`] goes on the wire.
@@ -237,6 +271,11 @@ impl Cmd {
             Cmd::RevokeCommissioning => "RevokeCommissioning",
             Cmd::WriteAcl { .. } => "WriteACL",
             Cmd::WriteBreadcrumb { .. } => "WriteBreadcrumb",
+            Cmd::WriteNodeLabel { .. } => "WriteNodeLabel",
+            Cmd::WriteLocation { .. } => "WriteLocation",
+            Cmd::WriteLocalConfigDisabled { .. } => "WriteLocalConfigDisabled",
+            Cmd::WriteAclFull { .. } => "WriteACL",
+            Cmd::WriteGroupKeyMap { .. } => "WriteGroupKeyMap",
         }
     }
 
@@ -345,6 +384,48 @@ impl Cmd {
                 ),
             },
             Cmd::WriteBreadcrumb { value } => Wire::Write { cluster: CL_GEN_COMM, attr: 0, value: Field::U64(2, *value) },
+            Cmd::WriteNodeLabel { label } => Wire::Write { cluster: CL_BASIC_INFO, attr: 0x05, value: Field::Str(2, label.clone()) },
+            Cmd::WriteLocation { country } => Wire::Write { cluster: CL_BASIC_INFO, attr: 0x06, value: Field::Str(2, country.clone()) },
+            Cmd::WriteLocalConfigDisabled { value } => Wire::Write { cluster: CL_BASIC_INFO, attr: 0x10, value: Field::Bool(2, *value) },
+            Cmd::WriteAclFull { entries } => Wire::Write {
+                cluster: CL_ACL,
+                attr: 0,
+                value: Field::ArrayOfStructs(
+                    2,
+                    entries
+                        .iter()
+                        .map(|e| {
+                            vec![
+                                Field::U8(1, e.privilege),
+                                Field::U8(2, e.auth_mode),
+                                if e.subjects.is_empty() { Field::Null(3) } else { Field::ArrayU64(3, e.subjects.clone()) },
+                                if e.targets.is_empty() {
+                                    Field::Null(4)
+                                } else {
+                                    Field::ArrayOfStructs(
+                                        4,
+                                        e.targets
+                                            .iter()
+                                            .map(|t| {
+                                                vec![
+                                                    t.cluster.map(|c| Field::U32(0, c)).unwrap_or(Field::Null(0)),
+                                                    t.endpoint.map(|c| Field::U16(1, c)).unwrap_or(Field::Null(1)),
+                                                    t.device_type.map(|c| Field::U32(2, c)).unwrap_or(Field::Null(2)),
+                                                ]
+                                            })
+                                            .collect(),
+                                    )
+                                },
+                            ]
+                        })
+                        .collect(),
+                ),
+            },
+            Cmd::WriteGroupKeyMap { entries } => Wire::Write {
+                cluster: CL_GRP_KEY,
+                attr: 0,
+                value: Field::ArrayOfStructs(2, entries.iter().map(|(g, k)| vec![Field::U16(1, *g), Field::U16(2, *k)]).collect()),
+            },
         }
     }
 }
@@ -720,6 +801,8 @@ pub struct Controller<C> {
     pub matter: Box<Matter<'static>>,
     pub crypto: C,
     pub idx: usize,
+    /// `ReportData` messages received from the device (filled when the report sink runs)
+    pub reports: RefCell<Vec<ReportSeen>>,
 }
 
 pub fn new_controller(seed: u32, idx: usize) -> Controller<impl Crypto> {
@@ -727,6 +810,7 @@ pub fn new_controller(seed: u32, idx: usize) -> Controller<impl Crypto> {
         matter: Box::new(new_matter(5541 + idx as u16)),
         crypto: mk_crypto(seed.wrapping_mul(31).wrapping_add(0x100 + idx as u32 * 7)),
         idx,
+        reports: RefCell::new(Vec::new()),
     }
 }
 
@@ -825,10 +909,118 @@ pub struct BootCfg {
     pub sched: Sched,
 }
 
+/// Optional extras of an incarnation (see [`boot_with`]); `Default` = what [`boot`] does.
+#[derive(Debug, Clone, Default)]
+pub struct BootOpts {
+    /// Run the debounced CASE resumption-cache writer (`Matter::run_persist_resumption`) as a
+    /// device task with that minimum interval (ms), so that the cache reaches the KV store.
+    pub persist_resumption_ms: Option<u64>,
+    /// Give every controller a responder that accepts the exchanges the device opens towards it
+    /// and answers `ReportData` with `StatusResponse(Success)` (what a subscriber does). Without
+    /// it a report the device sends stays unanswered and blocks the device's reporter. The
+    /// reports are logged in [`Controller::reports`].
+    pub ctrl_report_sink: bool,
+}
+
+/// One `ReportData` message a controller received on an exchange opened by the device.
+#[derive(Debug, Clone, PartialEq, Eq)]
+pub struct ReportSeen {
+    pub t_us: u64,
+    pub subscription_id: Option<u32>,
+    /// the message carried attribute or event reports (not just a keep-alive)
+    pub has_data: bool,
+}
+
+/// The subscriber side of subscription reports (see [`BootOpts::ctrl_report_sink`]).
+pub struct ReportSink<'a> {
+    log: &'a RefCell<Vec<ReportSeen>>,
+}
+
+impl rs_matter::respond::ExchangeHandler for ReportSink<'_> {
+    async fn handle(&self, mut exchange: Exchange<'_>) -> Result<(), Error> {
+        use super::imdev::tlv::{parse, Val};
+        loop {
+            exchange.recv_fetch().await?;
+            let (is_report, sub_id, has_data, more, suppress) = {
+                let rx = exchange.rx()?;
+                let meta = rx.meta();
+                if meta.proto_id == rs_matter::im::PROTO_ID_INTERACTION_MODEL && meta.proto_opcode == rs_matter::im::OpCode::ReportData as u8 {
+                    match parse(rx.payload()) {
+                        Some((_, v @ Val::Struct(_))) => (
+                            true,
+                            v.ctx(0).and_then(|x| x.u()).map(|x| x as u32),
+                            v.ctx(1).map(|x| !x.items().is_empty()).unwrap_or(false) || v.ctx(2).map(|x| !x.items().is_empty()).unwrap_or(false),
+                            v.ctx(3).and_then(|x| x.b()).unwrap_or(false),
+                            v.ctx(4).and_then(|x| x.b()).unwrap_or(false),
+                        ),
+                        _ => (true, None, false, false, false),
+                    }
+                } else {
+                    (false, None, false, false, false)
+                }
+            };
+            if !is_report {
+                exchange.acknowledge().await?;
+                return Ok(());
+            }
+            self.log.borrow_mut().push(ReportSeen { t_us: clock::now(), subscription_id: sub_id, has_data });
+            if suppress {
+                exchange.acknowledge().await?;
+                return Ok(());
+            }
+            // StatusResponse(Success): { 0: status, 0xFF: interaction model revision }
+            let status: [u8; 8] = [0x15, 0x24, 0x00, 0x00, 0x24, 0xFF, 0x0C, 0x18];
+            exchange
+                .send(
+                    rs_matter::transport::exchange::MessageMeta::new(
+                        rs_matter::im::PROTO_ID_INTERACTION_MODEL,
+                        rs_matter::im::OpCode::StatusResponse as u8,
+                        true,
+                    ),
+                    &status,
+                )
+                .await?;
+            if !more {
+                return Ok(());
+            }
+        }
+    }
+}
+
+/// One live subscription in the device's table (hook `Subscriptions::verif_for_each_live_sub`:
+/// the table plus the one being reported, unless that one is already marked for removal).
+#[derive(Debug, Clone, PartialEq, Eq)]
+pub struct LiveSub {
+    pub id: u32,
+    pub fab_idx: u8,
+    pub peer_node_id: u64,
+}
+
+/// One record of the device's CASE resumption cache (`state.resumption` is public).
+#[derive(Debug, Clone, PartialEq, Eq)]
+pub struct RecInfo {
+    pub fab_idx: u8,
+    pub peer_node_id: u64,
+    pub resumption_id: Vec<u8>,
+    /// FNV hash of the shared secret (constant for the lifetime of a record)
+    pub secret_hash: u32,
+}
+
 const NODE_ETH: Node<'static> = Node { endpoints: &[root_endpoint!(eth)] };
 const NODE_WIFI: Node<'static> = Node { endpoints: &[root_endpoint!(wifi)] };
 
 static NOOP_WIFI_DIAG: NoopWirelessNetCtl = NoopWirelessNetCtl::new(NetworkType::Wifi);
+
+/// One entry of the device's subscription table (hook `InteractionModel::verif_for_each_subscription`).
+#[derive(Debug, Clone, PartialEq, Eq, PartialOrd, Ord)]
+pub struct SubInfo {
+    pub fab_idx: u8,
+    pub peer_node_id: u64,
+    pub min_int_secs: u16,
+    pub max_int_secs: u16,
+    /// the stored SubscribeRequest bytes
+    pub request: Vec<u8>,
+}
 
 /// A running device incarnation plus the controllers' transports, all on one executor.
 pub struct Boot<'a, CC> {
@@ -839,6 +1031,9 @@ pub struct Boot<'a, CC> {
     pub net: &'a Net,
     pub ctrls: &'a [Controller<CC>],
     net_blob: &'a dyn Fn() -> (Option<Vec<u8>>, Vec<Vec<u8>>),
+    factory_reset: &'a dyn Fn(bool) -> Result<(), String>,
+    live_subs: &'a dyn Fn() -> Vec<LiveSub>,
+    subs: &'a dyn Fn() -> Vec<SubInfo>,
     dm_exit: &'a RefCell<Option<String>>,
     next_sess: u16,
     plant_seed: u32,
@@ -863,6 +1058,16 @@ where
     CC: Crypto,
     F: for<'a> FnOnce(&mut Boot<'a, CC>) -> R,
 {
+    boot_with(cfg, &BootOpts::default(), kv, net, ctrls, body)
+}
+
+/// [`boot`] with extras ([`BootOpts`]). The controllers may be the same objects across several
+/// incarnations of the device (they then keep their sessions and resumption records).
+pub fn boot_with<CC, R, F>(cfg: &BootCfg, opts: &BootOpts, kv: &MemKv, net: &Net, ctrls: &[Controller<CC>], body: F) -> Result<R, String>
+where
+    CC: Crypto,
+    F: for<'a> FnOnce(&mut Boot<'a, CC>) -> R,
+{
     let matter: Box<Matter<'static>> = Box::new(new_matter(5540));
     let crypto = mk_crypto(cfg.seed);
     let buffers: Box<MatterBuffers> = Box::new(MatterBuffers::new());
@@ -872,7 +1077,7 @@ where
             let state: Box<InteractionModelState<EthNetwork<'static>>> =
                 Box::new(InteractionModelState::new(EthNetwork::new_default()));
             let handler = (NODE_ETH, endpoints::EthSysHandlerBuilder::new().build(rand));
-            go(&matter, &crypto, &buffers, &state, handler, cfg, kv, net, ctrls, body)
+            go(&matter, &crypto, &buffers, &state, handler, cfg, opts, kv, net, ctrls, body)
         }
         NetKind::Wifi => {
             let state: Box<InteractionModelState<WifiNetworks<4>>> = Box::new(InteractionModelState::new(WifiNetworks::new()));
@@ -880,7 +1085,7 @@ where
                 NODE_WIFI,
                 endpoints::WifiSysHandlerBuilder::new(NoopWirelessNetCtl::new(NetworkType::Wifi), &NOOP_WIFI_DIAG).build(rand),
             );
-            go(&matter, &crypto, &buffers, &state, handler, cfg, kv, net, ctrls, body)
+            go(&matter, &crypto, &buffers, &state, handler, cfg, opts, kv, net, ctrls, body)
         }
     }
 }
@@ -893,6 +1098,7 @@ fn go<N, T, DC, CC, R, F>(
     state: &InteractionModelState<N>,
     handler: T,
     cfg: &BootCfg,
+    opts: &BootOpts,
     kv: &MemKv,
     net: &Net,
     ctrls: &[Controller<CC>],
@@ -933,6 +1139,44 @@ where
             (blob, ids)
         })
     };
+    let live_subs = || -> Vec<LiveSub> {
+        let mut v = Vec::new();
+        state.subscriptions().verif_for_each_live_sub(|s| v.push(LiveSub { id: s.id, fab_idx: s.fab_idx, peer_node_id: s.peer_node_id }));
+        v
+    };
+    let sinks: Vec<Responder<'_, ReportSink<'_>>> = if opts.ctrl_report_sink {
+        ctrls.iter().map(|c| Responder::new("ctrl.sink", ReportSink { log: &c.reports }, &c.matter, 0)).collect()
+    } else {
+        Vec::new()
+    };
+    let factory_reset = |matter_first: bool| -> Result<(), String> {
+        let m = || matter.factory_reset(&kva).map_err(|e| format!("Matter::factory_reset: {:?}", e.code()));
+        let i = || match poll_now(dm.factory_reset()) {
+            Some(Ok(())) => Ok(()),
+            Some(Err(e)) => Err(format!("InteractionModel::factory_reset: {:?}", e.code())),
+            None => Err("InteractionModel::factory_reset did not complete".to_string()),
+        };
+        if matter_first {
+            m()?;
+            i()
+        } else {
+            i()?;
+            m()
+        }
+    };
+    let subs = || -> Vec<SubInfo> {
+        let mut v = Vec::new();
+        dm.verif_for_each_subscription(|s, req| {
+            v.push(SubInfo {
+                fab_idx: s.fab_idx,
+                peer_node_id: s.peer_node_id,
+                min_int_secs: s.min_int_secs,
+                max_int_secs: s.max_int_secs,
+                request: req.to_vec(),
+            })
+        });
+        v
+    };
     let dm_exit: RefCell<Option<String>> = RefCell::new(None);
     let mut ex = Exec::new(cfg.sched.clone());
     ex.add_time_source(net);
@@ -952,10 +1196,21 @@ where
             });
         });
     }
+    if let Some(ms) = opts.persist_resumption_ms {
+        let kva = &kva;
+        ex.spawn("dev.resumption-writer", async move {
+            let _ = matter.run_persist_resumption(kva, embassy_time::Duration::from_millis(ms)).await;
+        });
+    }
     for c in ctrls {
         let (m, cc, e) = (&*c.matter, &c.crypto, net.end(c.net_node()));
         ex.spawn(&format!("ctrl{}.run", c.idx), async move {
             let _ = m.run(cc, e, e, NoNetwork).await;
+        });
+    }
+    for (i, r) in sinks.iter().enumerate() {
+        ex.spawn(&format!("ctrl{i}.sink"), async move {
+            let _ = r.run::<2>().await;
         });
     }
     let mut boot = Boot {
@@ -965,6 +1220,9 @@ where
         net,
         ctrls,
         net_blob: &net_blob,
+        factory_reset: &factory_reset,
+        live_subs: &live_subs,
+        subs: &subs,
         dm_exit: &dm_exit,
         next_sess: 0x1000u16.wrapping_add((cfg.seed as u16) & 0x0fff),
         plant_seed: cfg.seed ^ 0x7a7a,
@@ -1122,6 +1380,99 @@ impl<'a, CC: Crypto> Boot<'a, CC> {
         })
     }
 
+    /// The device's live subscriptions (including one being reported right now).
+    pub fn live_subscriptions(&self) -> Vec<LiveSub> {
+        (self.live_subs)()
+    }
+
+    /// The device's CASE resumption cache.
+    pub fn resumption_records(&self) -> Vec<RecInfo> {
+        resumption_records_of(self.matter)
+    }
+
+    /// Every session of the device (hook `verif_sessions`).
+    pub fn device_sessions(&self) -> Vec<rs_matter::transport::session::verif::SessionSnapshot> {
+        sessions(self.matter)
+    }
+
+    /// `(fabric index, fabric id, node id, FNV of the root certificate)` of every fabric of the device.
+    pub fn fabric_identities(&self) -> Vec<(u8, u64, u64, u32)> {
+        self.matter
+            .with_state(|st| st.fabrics.iter().map(|f| (f.fab_idx().get(), f.fabric_id(), f.node_id(), fnv(f.root_ca()))).collect())
+    }
+
+    /// Interaction-Model read of concrete attribute paths `(endpoint, cluster, attribute)` from
+    /// controller `ctrl` over its session `sess` (hand-rolled client of `sim::imdev`, decoded
+    /// independently of rs-matter's client).
+    pub fn read(&mut self, ctrl: usize, sess: u32, paths: &[(u16, u32, u32)], fabric_filtered: bool) -> super::imdev::ReadOutcome {
+        use super::imdev::{Path, ReadOutcome, ReadReq};
+        let c = &self.ctrls[ctrl];
+        let (m, cc) = (&*c.matter, &c.crypto);
+        let req = ReadReq {
+            attrs: Some(paths.iter().map(|(e, c, a)| Path::concrete(*e, *c, *a)).collect()),
+            events: None,
+            fabric_filtered,
+            dataver_filters: vec![],
+            event_min: None,
+        };
+        let r = self.run_op("read", async move {
+            let mut ex = match Exchange::initiate_for_session(m, cc, sess) {
+                Ok(e) => e,
+                Err(e) => return ReadOutcome { error: Some(format!("initiate:{:?}", e.code())), ..Default::default() },
+            };
+            super::imdev::read(&mut ex, &req, &mut |_, _| {}).await
+        });
+        self.ex.settle();
+        r.unwrap_or_else(|| ReadOutcome { error: Some("no answer within the op timeout".into()), ..Default::default() })
+    }
+
+    /// Subscribe (priming report + SubscribeResponse) to concrete attribute paths.
+    pub fn subscribe(&mut self, ctrl: usize, sess: u32, paths: &[(u16, u32, u32)], min_s: u16, max_s: u16, keep: bool) -> super::imdev::ReadOutcome {
+        use super::imdev::{Path, ReadOutcome, ReadReq, SubscribeReq};
+        let c = &self.ctrls[ctrl];
+        let (m, cc) = (&*c.matter, &c.crypto);
+        let req = SubscribeReq {
+            read: ReadReq {
+                attrs: Some(paths.iter().map(|(e, c, a)| Path::concrete(*e, *c, *a)).collect()),
+                events: None,
+                fabric_filtered: true,
+                dataver_filters: vec![],
+                event_min: None,
+            },
+            keep_subscriptions: keep,
+            min_interval_s: min_s,
+            max_interval_s: max_s,
+        };
+        let r = self.run_op("subscribe", async move {
+            let mut ex = match Exchange::initiate_for_session(m, cc, sess) {
+                Ok(e) => e,
+                Err(e) => return ReadOutcome { error: Some(format!("initiate:{:?}", e.code())), ..Default::default() },
+            };
+            super::imdev::subscribe(&mut ex, &req, &mut |_, _| {}).await
+        });
+        self.ex.settle();
+        r.unwrap_or_else(|| ReadOutcome { error: Some("no answer within the op timeout".into()), ..Default::default() })
+    }
+
+    /// Number of datagrams sent so far (a position in the wire tap).
+    pub fn tap_pos(&self) -> usize {
+        self.net.sent_count()
+    }
+
+    /// Unencrypted secure-channel opcodes the device (net node 0) has sent since tap position `from`.
+    pub fn device_sc_opcodes_since(&self, from: usize) -> Vec<u8> {
+        self.net.with_tap(|t| {
+            t.sent
+                .iter()
+                .skip(from)
+                .filter(|s| s.src == 0)
+                .filter_map(|s| super::mutate::payload_offset(&s.bytes))
+                .filter(|(w, _)| w.proto_id == rs_matter::sc::PROTO_ID_SECURE_CHANNEL)
+                .map(|(w, _)| w.opcode)
+                .collect()
+        })
+    }
+
     pub fn failsafe_armed(&self) -> bool {
         self.matter.with_state(|s| s.verif_failsafe().is_armed())
     }
@@ -1144,6 +1495,34 @@ impl<'a, CC: Crypto> Boot<'a, CC> {
         self.dm_exit.borrow().clone()
     }
 
+    /// Factory-reset the device: `Matter::factory_reset` and `InteractionModel::factory_reset`
+    /// (in that order if `matter_first`), as an application would on a reset request.
+    pub fn factory_reset(&mut self, matter_first: bool) -> Result<(), String> {
+        let r = (self.factory_reset)(matter_first);
+        self.ex.settle();
+        r
+    }
+
+    /// The device's subscription table.
+    pub fn subscriptions(&self) -> Vec<SubInfo> {
+        (self.subs)()
+    }
+
+    /// The persisted form (TLV) of the Basic Information settings in memory (hook
+    /// `MatterState::verif_basic_info`).
+    pub fn basic_info_tlv(&self) -> Vec<u8> {
+        self.matter.with_state(|s| {
+            let mut buf = vec![0u8; 1024];
+            let mut wb = WriteBuf::new(&mut buf);
+            let len = match s.verif_basic_info().to_tlv(&TLVTag::Anonymous, &mut wb) {
+                Ok(()) => wb.get_tail(),
+                Err(_) => 0,
+            };
+            buf.truncate(len);
+            buf
+        })
+    }
+
     pub fn snapshot(&self) -> AdminSnapshot {
         let (networks, network_ids) = (self.net_blob)();
         AdminSnapshot {
@@ -1156,6 +1535,21 @@ impl<'a, CC: Crypto> Boot<'a, CC> {
             kv: self.kv.snapshot(),
         }
     }
+}
+
+/// The CASE resumption cache of any `Matter` (device or controller).
+pub fn resumption_records_of(matter: &Matter<'_>) -> Vec<RecInfo> {
+    matter.with_state(|st| {
+        st.resumption
+            .iter()
+            .map(|r| RecInfo {
+                fab_idx: r.fab_idx.get(),
+                peer_node_id: r.peer_nodeid,
+                resumption_id: r.resumption_id.reference().access().to_vec(),
+                secret_hash: fnv(r.shared_secret.reference().access()),
+            })
+            .collect()
+    })
 }
 
 /// The blob an empty, never-commissioned Wi-Fi store saves (what a boot without a persisted
